@@ -45,7 +45,7 @@ type Engine struct {
 func NewEngine(repo string) *Engine {
 	return &Engine{repo: repo, classes: map[string]*HeapClass{}, bases: map[string]*Heap{}, leafCls: map[string][]*HeapClass{},
 		typeIDs: map[string]int64{}, typeByID: map[int64]types.Type{}, strSnap: map[int]strSnap{}, funcs: map[string]*ssa.Function{},
-		inlineLimit: 60, inlineExternal: map[string]bool{}, fileOf: map[string]*ast.File{}, exprMemo: map[token.Pos]string{},
+		inlineLimit: 200, inlineExternal: map[string]bool{}, fileOf: map[string]*ast.File{}, exprMemo: map[token.Pos]string{},
 		pkgByPath: map[string]*packages.Package{}, constErr: map[string]int64{}}
 }
 
